@@ -228,6 +228,7 @@ UNITS['matchers'] = {
         "PM_GT_D": "13param_matchesINS_17predicate_matcherINS_7lambdas7greaterENS2_15greater_printerENS_18duck_typed_matcherIS3_JdEEEJdEEESt17reference_wrapperIdEE",
         "PM_GE_D": "13param_matchesINS_17predicate_matcherINS_7lambdas13greater_equalE.*18duck_typed_matcherIS3_JdEEEJdEEESt17reference_wrapperIdEE",
         "RE3": r"^_ZN11trompeloeil2reINS_8wildcardE.*syntax_option_typeENSF_15match_flag_typeE$", "RE2": r"^_ZN11trompeloeil2reINS_8wildcardE.*EEDaSC_NSt15regex_constants15match_flag_typeE$",
+        "PM_DEREF_UP": "13param_matchesINS_9ptr_derefIN14vp_trompeloeil6vp_absILi1EEEEESt17reference_wrapperISt10unique_ptrIiSt14default_deleteIiEEEE",
         "PM_EQ_NULL": "13param_matchesINS_17predicate_matcherINS_7lambdas5equalENS2_13equal_printerENS_18duck_typed_matcherIS3_JDnEEEJDnEEESt17reference_wrapperIPiEE",
         "PM_NE_NULL": "13param_matchesINS_17predicate_matcherINS_7lambdas9not_equalE.*18duck_typed_matcherIS3_JDnEEEJDnEEESt17reference_wrapperIPiEE",
         "PM_NULLPTR": "13param_matchesIDnSt17reference_wrapperIPiEE",
@@ -235,7 +236,7 @@ UNITS['matchers'] = {
         "PM_DEREF_NOT_GT": "13param_matchesINS_9ptr_derefINS_11not_matcherINS_17predicate_matcherINS_7lambdas7greaterE.*St17reference_wrapperIPiEE",
 },
 }
-for e in ('m_eq', 'm_ne', 'm_lt', 'm_le', 'm_gt', 'm_ge', 'm_eq_typed', 'm_lt_typed', 'm_value', 'm_wildcard', 'm_not', 'm_deref', 'm_any_of', 'm_all_none_of', 'm_any_of_value', 'm_member_is', 'm_re', 'm_re_string', 'm_null', 'm_nested', 'm_double', 'm_re_flags'):
+for e in ('m_eq', 'm_ne', 'm_lt', 'm_le', 'm_gt', 'm_ge', 'm_eq_typed', 'm_lt_typed', 'm_value', 'm_wildcard', 'm_not', 'm_deref', 'm_any_of', 'm_all_none_of', 'm_any_of_value', 'm_member_is', 'm_re', 'm_re_string', 'm_null', 'm_nested', 'm_double', 'm_re_flags', 'm_deref_smart'):
     ob(name='matchers.%s' % e[2:], kind='FC+', props=['C10'], unit='matchers', harness='h_matchers.c', entry=e, unwind=5,
        bound='none: loop-free, full 32-bit argument and operand domain (m_double: every pair of IEEE-754 doubles incl. NaN, infinities, signed zeros); combinators over abstract operand matchers (arity <= 3 as instantiated)')
 LEVELS['C10'] = 'proof'
